@@ -108,10 +108,23 @@ func c18Build(kind, spec string) (c18Val, error) {
 // ~2.8 kB of JSON each); frost: (size-100)*100 additional verification shares; topology: npeers is simply large.
 func c18BuildRaw(kind, spec string) (c18Val, error) {
 	f := strings.Split(spec, ".")
-	if len(f) != 5 {
+	if len(f) != 5 && len(f) != 6 {
 		return c18Val{}, fmt.Errorf("bad spec")
 	}
 	fi, seed, np, thr, sz := int(u64(f[0])), u64(f[1]), int(u64(f[2])), int(u64(f[3]))-1000, int(u64(f[4]))
+	// optional 6th field: a VARIANT of the value named by the first five - 1: one secret digit differs (key shares) /
+	// one peer's multiaddress differs (topology); 2: the same peers in reverse order; 3: both
+	variant := 0
+	if len(f) == 6 {
+		variant = int(u64(f[5]))
+	}
+	if variant != 0 {
+		base, err := c18Build(kind, strings.Join(f[:5], "."))
+		if err != nil {
+			return base, err
+		}
+		return c18Variant(base, variant), nil
+	}
 	r := &c18rng{s: seed*0x2545F4914F6CDD1D + 77}
 	peers := []peer.ID{}
 	for i := 0; i < np; i++ {
@@ -196,6 +209,105 @@ func c18BuildRaw(kind, spec string) (c18Val, error) {
 		return c18Val{kind: kind, topo: t}, nil
 	}
 	return c18Val{}, fmt.Errorf("bad kind")
+}
+
+// c18Variant: a value that differs from v in one small place (v itself is never written through)
+func c18Variant(v c18Val, variant int) c18Val {
+	rev := func(ps []peer.ID) []peer.ID {
+		out := make([]peer.ID, len(ps))
+		for i, p := range ps {
+			out[len(ps)-1-i] = p
+		}
+		return out
+	}
+	switch v.kind {
+	case "ecdsa":
+		k := v.ecdsa
+		if variant&1 != 0 && k.Key.Xi != nil {
+			k.Key.Xi = new(big.Int).Xor(k.Key.Xi, big.NewInt(1)) // last digit only: the encoding keeps its length
+		}
+		if variant&2 != 0 {
+			k.Peers = rev(k.Peers)
+		}
+		return c18Val{kind: v.kind, ecdsa: k}
+	case "frost":
+		k := v.frost
+		k.Key = v.frost.Key.Clone()
+		if variant&1 != 0 {
+			one := &curve.Secp256k1Scalar{}
+			b := make([]byte, 32)
+			b[31] = 1
+			_ = one.UnmarshalBinary(b)
+			k.Key.PrivateShare = curve.Secp256k1{}.NewScalar().Set(k.Key.PrivateShare).Add(one).(*curve.Secp256k1Scalar)
+		}
+		if variant&2 != 0 {
+			k.Peers = rev(k.Peers)
+		}
+		return c18Val{kind: v.kind, frost: k}
+	default:
+		t := &topology.NetworkTopology{Threshold: v.topo.Threshold}
+		for _, p := range v.topo.Peers {
+			t.Peers = append(t.Peers, &peer.AddrInfo{ID: p.ID, Addrs: append([]ma.Multiaddr{}, p.Addrs...)})
+		}
+		if variant&1 != 0 && len(t.Peers) > 0 {
+			done := false
+			for _, p := range t.Peers {
+				if len(p.Addrs) > 0 { // the same peer announces another address
+					a, _ := ma.NewMultiaddr("/ip4/10.9.8.7/tcp/4001")
+					if p.Addrs[0].Equal(a) {
+						a, _ = ma.NewMultiaddr("/ip4/10.9.8.7/tcp/4002")
+					}
+					p.Addrs[0] = a
+					done = true
+					break
+				}
+			}
+			if !done { // nobody had an address: the first peer gets one
+				a, _ := ma.NewMultiaddr("/ip4/10.9.8.7/tcp/4001")
+				t.Peers[0].Addrs = []ma.Multiaddr{a}
+			}
+		}
+		if variant&2 != 0 {
+			for i, j := 0, len(t.Peers)-1; i < j; i, j = i+1, j-1 {
+				t.Peers[i], t.Peers[j] = t.Peers[j], t.Peers[i]
+			}
+		}
+		return c18Val{kind: v.kind, topo: t}
+	}
+}
+
+// one long-lived store object, as the application holds it
+type c18Obj struct {
+	kind string
+	e    *keyshare.ECDSAKeyshareStore
+	f    *keyshare.FrostKeyshareStore
+	t    *topology.TopologyStore
+}
+
+func c18NewObj(kind, path string) *c18Obj {
+	return &c18Obj{kind: kind, e: keyshare.NewECDSAKeyshareStore(path), f: keyshare.NewFrostKeyshareStore(path), t: topology.NewTopologyStore(path)}
+}
+func (o *c18Obj) store(v c18Val) error {
+	switch o.kind {
+	case "ecdsa":
+		return o.e.StoreKeyshare(v.ecdsa)
+	case "frost":
+		return o.f.StoreKeyshare(v.frost)
+	}
+	return o.t.StoreTopology(v.topo)
+}
+func (o *c18Obj) get() (c18Val, error) {
+	v := c18Val{kind: o.kind}
+	var err error
+	switch o.kind {
+	case "ecdsa":
+		v.ecdsa, err = o.e.GetKeyshare()
+	case "frost":
+		v.frost, err = o.f.GetKeyshare()
+	default:
+		v.topo, err = o.t.Topology()
+	}
+	return v, err
 }
 
 // the REAL store / getter for each kind
@@ -640,6 +752,99 @@ func c18OpSeq(a []string) string {
 	return joinOr(out, "/")
 }
 
+// obj <kind> <step;step;…>   step = g | <none|fail>:<k>:<value spec>
+// ONE store object for the whole sequence (as in the application: the relayer keeps its store for its lifetime), stores and
+// reads interleaved, back to back, no sleeps. Values are named by class: c = index of the first STORE step with that encoding.
+//   =>  per step, joined by `/`:   g,<v<c>|err|x>     or     s,<c>,<len>,<ok|err>,<file: v<c>|absent|x<len>>
+func c18OpObj(a []string) string {
+	kind := a[0]
+	dir, err := os.MkdirTemp("", "verif-c18o-")
+	if err != nil {
+		return "notmp"
+	}
+	defer os.RemoveAll(dir)
+	path := filepath.Join(dir, "data.json")
+	obj := c18NewObj(kind, path)
+	type val struct {
+		v c18Val
+		b []byte
+	}
+	vals := []val{} // one per store step
+	out := []string{}
+	for _, stp := range items(a[1], ";") {
+		if stp == "g" {
+			got, gerr := obj.get()
+			res := "x"
+			if gerr != nil {
+				res = "err"
+			} else {
+				for i, w := range vals {
+					if c18Eq(got, w.v) {
+						res = "v" + itoa(i)
+						break
+					}
+				}
+			}
+			out = append(out, "g,"+res)
+			continue
+		}
+		f := strings.Split(stp, ":")
+		if len(f) != 3 {
+			return "badstep"
+		}
+		v, err := c18Build(kind, f[2])
+		if err != nil {
+			return "badspec"
+		}
+		b, err := c18EncodingOf(kind, f[2])
+		if err != nil {
+			return "noref"
+		}
+		cls := len(vals)
+		for i, w := range vals {
+			if bytes.Equal(w.b, b) {
+				cls = i
+				break
+			}
+		}
+		vals = append(vals, val{v, b})
+		st := "ok"
+		switch f[0] {
+		case "none":
+			if obj.store(v) != nil {
+				st = "err"
+			}
+		case "fail":
+			c18mu.Lock()
+			restore, err := c18SetLimit(u64(f[1]))
+			if err != nil {
+				c18mu.Unlock()
+				return "nolimit"
+			}
+			e := obj.store(v)
+			restore()
+			c18mu.Unlock()
+			if e != nil {
+				st = "err"
+			}
+		default:
+			return "badmode"
+		}
+		file := "absent"
+		if fb, rerr := os.ReadFile(path); rerr == nil {
+			file = "x" + itoa(len(fb))
+			for i, w := range vals {
+				if bytes.Equal(w.b, fb) {
+					file = "v" + itoa(i)
+					break
+				}
+			}
+		}
+		out = append(out, fmt.Sprintf("s,%d,%d,%s,%s", cls, len(b), st, file))
+	}
+	return joinOr(out, "/")
+}
+
 func init() {
 	if arg := os.Getenv("VERIF_C18_CHILD"); arg != "" {
 		c18Child(arg) // never returns
@@ -647,6 +852,7 @@ func init() {
 	ops["C18.store"] = c18OpStore
 	ops["C18.storero"] = c18OpStoreRO
 	ops["C18.seq"] = c18OpSeq
+	ops["C18.obj"] = c18OpObj
 	gens["C18"] = genC18
 }
 
@@ -830,6 +1036,59 @@ func genC18(g *G) {
 			mode := []string{"none", "fail", "die", "fail", "die"}[i%5]
 			k := []int{0, 1, n / 2, n - 1, n, g.Intn(n + 1)}[g.Intn(6)]
 			g.Emit("storero", kind, mode, itoa(k), old, nw)
+		}
+	}
+	// 8. ONE long-lived store object, reads and stores interleaved back to back; NEAR-IDENTICAL successive values: the same
+	//    value with another threshold digit (same encoding length), one secret digit / one multiaddress changed, the same
+	//    peers in another order - what a cache, a "nothing changed" short cut or a stale stamp would get wrong
+	near := func(kind string) (string, string) {
+		thr := 1 + g.Intn(3)
+		a := c18Spec(g.Intn(3), 1+g.Intn(1<<30), 1+g.Intn(6), thr, g.Intn(70))
+		f := strings.Split(a, ".")
+		switch g.Intn(5) {
+		case 0: // only the threshold digit
+			f[3] = itoa(1000 + thr%3 + 1)
+			return a, strings.Join(f, ".")
+		case 1:
+			return a, a + ".2" // only the order
+		case 2:
+			return a, a + ".3"
+		default:
+			return a, a + ".1" // one secret digit / one address
+		}
+	}
+	for _, kind := range kinds {
+		for i := 0; i < g.Count(25, 500); i++ {
+			a, b := near(kind)
+			steps := []string{"none:0:" + a, "g", "none:0:" + b, "g"}
+			switch g.Intn(5) {
+			case 0:
+				steps = []string{"g", "none:0:" + a, "none:0:" + b, "g", "none:0:" + a, "g"}
+			case 1:
+				steps = append(steps, "fail:"+itoa(g.Intn(encLen(kind, a)+1))+":"+a, "g", "none:0:"+a, "g")
+			case 2:
+				c, d := near(kind)
+				steps = append(steps, "none:0:"+c, "g", "none:0:"+d, "g", "none:0:"+b, "g")
+			}
+			g.Emit("obj", kind, joinOr(steps, ";"))
+			// the same pair through fresh objects: single store over a previous value, and as a sequence
+			g.Emit("store", kind, "none", "0", a, b)
+			g.Emit("seq", kind, "none:0:"+a+";none:0:"+b+";none:0:"+a)
+		}
+		for i := 0; i < g.Count(10, 300); i++ { // random interleavings
+			steps := []string{}
+			for j := 0; j < 3+g.Intn(6); j++ {
+				switch g.Intn(5) {
+				case 0, 1:
+					steps = append(steps, "g")
+				case 2:
+					v := rndSpec()
+					steps = append(steps, "fail:"+itoa(g.Intn(encLen(kind, v)+2))+":"+v)
+				default:
+					steps = append(steps, "none:0:"+rndSpec())
+				}
+			}
+			g.Emit("obj", kind, joinOr(append(steps, "g"), ";"))
 		}
 	}
 	// 4. random everything: kind, mode, previous value or none, same value stored twice, k around the boundaries
